@@ -27,6 +27,10 @@ type schedParams struct {
 	// ExpectPresent: keys that must be retrievable at the end in every schedule (C13:
 	// a fresh entry is never removed by the cleanup path).
 	ExpectPresent []string `json:"expect_present"`
+	// C19 component level: effective values after quiescence
+	ExpectLimit                   int64 `json:"expect_limit"`
+	ExpectIntervalMs              int   `json:"expect_interval_ms"`
+	ExpectNotNotifiedAfterDestroy bool  `json:"expect_not_notified_after_destroy"`
 }
 
 func init() {
@@ -37,6 +41,9 @@ type schedRun struct {
 	h    *hcache
 	recs [][]opRec // per thread; index 0 = main
 	end  view
+	// effective settings of the components at the end
+	limit    int64
+	interval int64
 }
 
 func scenarioSched(c *vrun.Ctx) {
@@ -83,6 +90,11 @@ func scenarioSched(c *vrun.Ctx) {
 			}
 			vsched.Quiesce()
 			r.end = h.observe(false)
+			if h.mem != nil {
+				r.limit, r.interval = h.mem.maxCacheSize.Get(), int64(h.mem.janitor.interval)
+			} else {
+				r.limit, r.interval = h.file.maxCacheSize.Get(), int64(h.file.janitor.interval)
+			}
 			h.cancel()
 		}
 		c.Explore(vrun.ExploreOpts{
@@ -94,6 +106,15 @@ func scenarioSched(c *vrun.Ctx) {
 					if prob := r.end.countersProblem(r.h.file != nil, false); prob != "" {
 						c.Violation("C12/"+p.Name+"/"+classify(prob), prob+" after "+r.history(), x)
 					}
+				}
+				if p.ExpectLimit != 0 && r.limit != p.ExpectLimit {
+					c.Violation("C19/"+p.Name+"/cache-limit-not-latest", fmt.Sprintf("the cache ends up with limit %d although the most recent accepted value is %d: %s", r.limit, p.ExpectLimit, r.history()), x)
+				}
+				if p.ExpectIntervalMs != 0 && r.interval != int64(p.ExpectIntervalMs)*1000000 {
+					c.Violation("C19/"+p.Name+"/cleanup-interval-not-latest", fmt.Sprintf("the janitor ends up with interval %dns although the most recent accepted value is %dms: %s", r.interval, p.ExpectIntervalMs, r.history()), x)
+				}
+				if p.ExpectNotNotifiedAfterDestroy && r.limit == 900 {
+					c.Violation("C19/"+p.Name+"/notified-after-destroy", "a cache that had been destroyed was still notified of a later limit change: "+r.history(), x)
 				}
 				for _, k := range p.ExpectPresent {
 					if _, ok := r.end.Retrievable[k]; !ok {
